@@ -16,6 +16,7 @@ package limits
 
 import (
 	"errors"
+	"math"
 	"sort"
 	"strconv"
 	"strings"
@@ -176,6 +177,10 @@ func parseSize(sizeStr string) int64 {
 		if strings.HasSuffix(sizeStr, unit.symbol) {
 			size, err := strconv.ParseInt(sizeStr[0:len(sizeStr)-len(unit.symbol)], 10, 64)
 			if err != nil {
+				return -1
+			}
+			// a size that does not fit an int64 is not a size
+			if size > 0 && size > math.MaxInt64/unit.multiplier {
 				return -1
 			}
 			return size * unit.multiplier
